@@ -216,7 +216,7 @@ def run_kani_job(ctx, res, job):
         res.items.append(it.describe())
         res.rules += ["%s: %s" % (it.name, r) for r in it.rules]
     hs = [h for h in job.harnesses if h.kind != "bounded" or True]
-    kani_run.write_crate(d, "vp_" + job.name, kani_run.SHIM + job.lib_rs, job.deps, [h.name for h in job.harnesses], ctx.repo)
+    kani_run.write_crate(d, "vp_" + job.name, "#![allow(dead_code, unused_imports, unused_variables, unused_mut, unused_parens, unused_macros, unreachable_code, semicolon_in_expressions_from_non_local_macros)]\n" + kani_run.SHIM + job.lib_rs, job.deps, [h.name for h in job.harnesses], ctx.repo)
     open(os.path.join(d, "extract.diff"), "w").write("".join(it.diff() for it in job.items))
     scan_trusted(job.lib_rs, job.trusted, res, job.name)
     r = kani_run.run_kani(d, [h.name.split("::")[-1] for h in hs], jobs=job.jobs, timeout=job.timeout,
